@@ -186,6 +186,12 @@ def judge_c07(obs: L.Obs) -> list[tuple[str, str]]:
         if n > 1:
             out.append(("C07/on_stop-multiple", f"on_stop called {n}x for one session"))
         if final != "CLOSED":
+            sil = [a for a in obs.applied if a["kind"] == "silence" and a.get("applied") and str(a.get("stage", "")).startswith("CONNECTED")]
+            K = float(obs.spec.get("keepalive") or 20.0)
+            if sil and obs.t_end - sil[0]["t"] > 8 * K:
+                # a peer silent for more than 8 keep-alive periods (6.5 is the documented worst case) is dead: that IS a close cause
+                out.append(("C07/on_stop-missing", f"the peer has been silent for {obs.t_end - sil[0]['t']:.1f}s (keepalive {K}s) but the session never closed and on_stop was "
+                            f"called {n}x (cause {cause_tag(obs)})"))
             if obs.lost_not_closed:
                 out.append(("C07/on_stop-missing", f"the session's transport is gone ({obs.lost_not_closed[0]}) but the connection never closed and on_stop was "
                             f"called {n}x (cause {cause_tag(obs)})"))
@@ -577,6 +583,28 @@ def same_turn_pairs_sweep(ctx: Ctx, prop: str) -> None:
                         faults.append({"kind": net, "point": {"t": t}, "posclass": "same-turn"})
                     faults.append({"kind": user, "point": {"t": t, "after_io": after_io}, "posclass": "same-turn-after-io" if after_io else "same-turn-before-io"})
                     record(ctx, prop, run_spec({**bspec, "faults": faults}), "same-turn-pair/" + label)
+
+
+def abandoned_disconnect_sweep(ctx: Ctx, prop: str) -> None:
+    """An established session, a local disconnect() that the device never acknowledges and that the caller abandons (cancels), and afterwards a
+    device that hangs without closing the socket, closes it, or misbehaves: the graceful marker is set but the session is still open - every
+    close cause (ping timeout included) must still end it, with the stop callback fired once and True."""
+    S = L.default_spec
+    t0 = L.core_start()
+    idx = 0
+    for framing in ("plain", "noise"):
+        for keepalive in (1.0, 2.5):
+            for t_cancel in (0.2, 3.0):
+                for then in ("silence", "eof", "rst", "garbage", "peer_disconnect", "force", "none"):
+                    idx += 1
+                    if not ctx.mine(idx):
+                        continue
+                    faults: list[dict[str, Any]] = [{"kind": "disconnect", "point": {"t": t0 + 1.0}, "posclass": "abandoned-disconnect"},
+                                                    {"kind": "cancel", "point": {"t": t0 + 1.0 + t_cancel}, "posclass": "abandoned-disconnect"}]
+                    if then != "none":
+                        faults.append({"kind": then, "point": {"t": t0 + 1.0 + t_cancel + 0.5}, "posclass": "abandoned-disconnect"})
+                    spec = S(framing=framing, keepalive=keepalive, device={"handlers": "no_disconnect_answer"}, program=[["connect"], ["sleep", 40.0]] + ([] if then == "silence" else [["force"]]), faults=faults)
+                    record(ctx, prop, run_spec(spec), "abandoned-disconnect")
 
 
 def raising_on_stop_sweep(ctx: Ctx, prop: str) -> None:
